@@ -306,6 +306,46 @@ def parse_strace(lines: Iterable[str]) -> List[Dict[str, Any]]:
     return recs
 
 
+def causal_repair(recs: List[Dict[str, Any]]) -> Tuple[List[Dict[str, Any]], int]:
+    """strace -f serialises the calls of several threads in the order it happened to collect their
+    exits, which for calls a few microseconds apart need not be the order in which the kernel ran
+    them.  Two kernel guarantees fix the order where it matters to the model: a descriptor number
+    is handed out only after its previous owner closed it, and an exclusive flock is granted only
+    after the previous holder unlocked (or closed).  A close / unlock that is logged AFTER the call
+    it must precede is moved in front of it.  Single-threaded traces are never changed."""
+    recs = list(recs)
+    moved = 0
+    open_fds: set = set()
+    holder: Optional[int] = None
+    i = 0
+    while i < len(recs):
+        r = recs[i]
+        need: Optional[int] = None      # index of a later record that must come first
+        if r["op"] == "open" and r["fd"] in open_fds:
+            need = next((j for j in range(i + 1, min(len(recs), i + 400)) if recs[j]["op"] == "close" and recs[j]["fd"] == r["fd"]), None)
+        elif r["op"] == "flock" and r["how"] == "ex" and holder is not None and holder != r["fd"]:
+            need = next((j for j in range(i + 1, min(len(recs), i + 400))
+                         if (recs[j]["op"] == "flock" and recs[j]["how"] == "un" and recs[j]["fd"] == holder)
+                         or (recs[j]["op"] == "close" and recs[j]["fd"] == holder)), None)
+        if need is not None:
+            recs.insert(i, recs.pop(need))
+            moved += 1
+            continue                     # re-examine position i (now the moved record)
+        if r["op"] == "open":
+            open_fds.add(r["fd"])
+        elif r["op"] == "close":
+            open_fds.discard(r["fd"])
+            if holder == r["fd"]:
+                holder = None
+        elif r["op"] == "flock":
+            if r["how"] == "ex":
+                holder = r["fd"]
+            elif holder == r["fd"]:
+                holder = None
+        i += 1
+    return recs, moved
+
+
 # ------------------------------------------------------------------------------------------------
 # records -> Trace_FS events
 # ------------------------------------------------------------------------------------------------
